@@ -2,7 +2,7 @@
 //! C12 (help lists exactly what is accepted) and C16 (generated documentation).
 use crate::def::*;
 
-pub const DOC_FIELDS: usize = 18;
+pub const DOC_FIELDS: usize = 19;
 
 fn h(n: Names, t: &str) -> Names {
     n.help(t)
@@ -43,6 +43,13 @@ pub fn doc_field(k: usize) -> P {
         16 => P::Alt(vec![P::Map(P::ReqFlag(h(Names::long("uniform"), "dual purpose item")).bx(), "f".into()), P::Map(arg(h(Names::long("uniform"), "dual purpose item"), "UNI").bx(), "a".into())]).opt(),
         // a titled group starting with `pure`
         17 => P::WithGroupHelp(P::Seq(vec![P::Pure(Val::U), arg(h(Names::both('w', "whiskey-arg"), "member after pure"), "WHI")]).bx(), DocSpec::plain("Group starting with pure")),
+        // an adjacent group of positionals without help: it has no rows of its own, what follows
+        // it must keep its sections
+        18 => P::Adj(vec![
+            P::Pos { ty: Ty::Os, strict: Strict::Any, metavar: "XA".into(), help: None },
+            P::Pos { ty: Ty::Os, strict: Strict::Any, metavar: "XB".into(), help: None },
+        ])
+        .opt(),
         _ => unreachable!(),
     }
 }
@@ -125,7 +132,12 @@ pub fn doc_defs(n: usize) -> Vec<Opts> {
     }
     let mut i = 0;
     for t in &all {
-        for tail in &tails {
+        for (ti, tail) in tails.iter().enumerate() {
+            // the row-less positional group would swallow a command name: not beside commands
+            if t.contains(&18) && ti >= 4 {
+                i += 1;
+                continue;
+            }
             let mut fields: Vec<P> = t.iter().map(|k| doc_field(*k)).collect();
             fields.extend(tail.iter().cloned());
             out.push(Opts { p: P::Seq(fields), cfg: cfg_variant(i) });
